@@ -17,7 +17,7 @@ func init() {
 		Run:       runC06,
 		Technique: "runtime conservation/locality checker over generated frame traces: exactly-once, concatenation, context-freedom and all-or-nothing of rtcp.Unmarshal",
 		Rule: "datagrams built as logged sequences of 1..40 reference-encoded frames (all 14 registered types, raw frames with arbitrary unregistered PT/FMT) plus the library's own Marshal output; " +
-			"then every split point between frames, a malformed but well-framed frame inserted at every position, the tail cut at offsets strictly inside a frame, 1..7 surplus octets that cannot form a packet, and the empty datagram; " +
+			"then every split point between frames, a malformed but well-framed frame and a valid frame damaged until rejected alone (inner lengths/counts, dropped trailing words) inserted at a random position, the tail cut at offsets strictly inside a frame, 1..7 surplus octets that cannot form a packet, the empty datagram, frames with length fields 0x3FFE..0xFFFF, capacity independence of every own decoder (buf[:n] of a larger array vs an exact copy), agreement of CompoundPacket.Unmarshal with rtcp.Unmarshal; " +
 			"non-trivial = a datagram of at least 2 frames or a fault-injected datagram; distinct by digest of the datagram octets",
 		Assumptions: []string{
 			"a malformed frame is one that is self-delimiting (length field = its size, or bad version) and that rtcp.Unmarshal rejects when given alone; cutting exactly at a frame boundary leaves a valid shorter datagram and is a concatenation case, not a truncation",
